@@ -4,7 +4,7 @@ from .. import env, histgen, session, wire
 from ..runner import Prop, Stage, Result
 from .c01 import CHATTER, CHATTER_TOKENS, TS_SHAPED
 
-PROFILE = dict(reuse=0.6, long_strings=True, weights=dict(newer=4, delete=14, bind=12, message=50, server_event=8, sync=6, enum=10, title=10, kinds=8, nulls=6, retype=3))
+PROFILE = dict(reuse=0.6, long_strings=True, weights=dict(newer=4, delete=14, bind=12, message=50, server_event=8, sync=6, enum=10, title=16, kinds=8, nulls=6, retype=3))
 
 
 def gen_chatter(d):
@@ -145,7 +145,7 @@ class Streams(Stage):
     name = 'streams'
 
     def examples(self, tier):
-        return 300 if tier == "quick" else 14 * 1500
+        return 400 if tier == "quick" else 14 * 1500
 
     def gen(self, d, tier):
         dialect = d.choice(['new', 'old'])
